@@ -207,7 +207,9 @@ class PathState:
             for a in args:
                 r = root_mut_local(a) if not is_transparent(c.callee) else None
                 if r is not None:
-                    self.env[r] = ('mutated', c.callee, b, self.env.get(r), rargs)
+                    # the other arguments are kept (what was written); the object itself is represented by its previous value only
+                    others = tuple(('self',) if root_mut_local(x) == r else y for x, y in zip(args, rargs))
+                    self.env[r] = ('mutated', c.callee, b, self.env.get(r), others)
             self.assign(c.dest, res)
         elif k == 'switch' and next_block is not None:
             d = self.operand(t['discr'])
